@@ -176,7 +176,60 @@ def run(src, tier, seed):
             res.ok(r, '%s: %d selection loop(s) keep the smallest id' % (nm.split('::')[-1], n_ok))
     decision_count_rule(fx, res)
     substitution_rule(fx, res)
+    loop_breaker_rule(fx, res)
     return res
+
+
+def loop_breaker_rule(fx, res):
+    """SubstLoopBreaker::operator() repeats: find the loops reachable from the start nodes, cut each loop at its last node, add the children that node had
+    to the start nodes.  If breakLoops does not hand back those children, a second loop reachable only through a removed edge is never looked at again, the
+    substitution map stays cyclic and Logic::substitutionsTransitiveClosure does not terminate (seeded/C30-loop-breaker-orphans-lost)."""
+    from boolctor import Interp, Unmodelled, Thrown
+    r = res.rule('loop-breaker-restarts-from-orphans', 'SubstLoopBreaker::breakLoops, evaluated abstractly on two loops whose last nodes have two and one children: it returns exactly those '
+                 'children and leaves the two nodes without children; operator() adds everything breakLoops returns to the start nodes before searching again', floor=3)
+    f = fx.func('opensmt::SubstLoopBreaker::breakLoops')
+    children = {('sn', 2): [('sn', 10), ('sn', 11)], ('sn', 3): [('sn', 12)], ('sn', 1): [('sn', 2)]}
+    before = {k: list(v) for k, v in children.items()}
+
+    def node_of(i, n, a):
+        v = i.val(n['recv']) if n.get('recv') is not None else a[0]
+        if not (isinstance(v, tuple) and v and v[0] == 'node'):
+            raise Unmodelled('node method on %s' % (v,))
+        return ('sn', v[1])
+    it = Interp(fx, f, '?', {})
+    it.oracle = {
+        'nChildren': lambda i, a, n: len(children[node_of(i, n, a)]),
+        'swipeChildren': lambda i, a, n: children.__setitem__(node_of(i, n, a), []),
+        'op:[]': lambda i, a, n: children[('sn', a[0][1])][a[1]] if isinstance(a[0], tuple) and a[0] and a[0][0] == 'node' else NotImplemented,
+    }
+    try:
+        out = it.run_env({f['params'][0]['n']: [[('sn', 1), ('sn', 2)], [('sn', 3)]], 'this.sna': {k: ('node', k[1]) for k in children}})
+    except Thrown:
+        raise AnalysisBroken('SubstLoopBreaker::breakLoops throws on the abstract graph')
+    except Unmodelled as e:
+        raise AnalysisBroken('SubstLoopBreaker::breakLoops is outside the modelled subset: %s' % e)
+    want = before[('sn', 2)] + before[('sn', 3)]
+    if isinstance(out, list) and sorted(out) == sorted(want):
+        res.ok(r, 'breakLoops returns the children of the cut nodes: %s' % [x[1] for x in out])
+    else:
+        res.bad(r, 'orphans-lost', fx.loc(f), 'SubstLoopBreaker::breakLoops returns %s for two loops whose cut nodes had the children %s: the search for further loops is not restarted from them, a loop '
+                'reachable only through a removed edge survives and the transitive closure of the substitutions does not terminate' % ([x[1] for x in out] if isinstance(out, list) else out, [x[1] for x in want]))
+    if children[('sn', 2)] == [] and children[('sn', 3)] == [] and children[('sn', 1)] == before[('sn', 1)]:
+        res.ok(r, 'breakLoops removes the children of the last node of each loop and of no other node')
+    else:
+        res.bad(r, 'loop-not-cut', fx.loc(f), 'SubstLoopBreaker::breakLoops leaves the children %s (expected: last node of each loop without children, other nodes untouched): the loop is not broken' % children)
+    op = fx.func('opensmt::SubstLoopBreaker::operator()')
+    ok = False
+    for lp in (l for l in walk(op['body']) if l.get('k') == 'loop'):
+        decl = [d for d in walk(lp['body']) if d.get('k') == 'decl' and d.get('init') is not None and any(is_call(x, 'breakLoops') for x in [see_through(d['init'])] + list(walk(d['init'])))]
+        for d in decl:
+            for inner in (l for l in walk(lp['body']) if l.get('k') == 'loop' and l.get('kind') == 'range' and path_of(l.get('range')) == d['n']):
+                if any(x.get('k') == 'call' and mname(x) in ('push', 'push_back') and path_of((x.get('a') or [None])[0]) == inner.get('var') for x in walk(inner['body'])):
+                    ok = True
+    if ok:
+        res.ok(r, 'operator(): every node returned by breakLoops becomes a start node of the next search')
+    else:
+        res.bad(r, 'orphans-not-restarted', fx.loc(op), 'SubstLoopBreaker::operator() no longer adds the nodes returned by breakLoops to the start nodes of the next search')
 
 
 def decision_count_rule(fx, res):
